@@ -2,6 +2,7 @@
 from props.common import run_with
 from props.parsecommon import parse_step_obs
 from props.lexcommon import lex_step_obs
+from props.inclcommon import push_obs, pop_obs
 
 NEEDS_LEXER = True
 FUNCS = ["every rule action of lexer.l", "qputc (growth)", "qput", "qbeg", "qend", "qstr", "trim_whitespace", "cfg_parse_internal (states 0-15)", "cfg_setopt", "cfg_addval",
@@ -16,6 +17,16 @@ def build_obs(tier, tables):
     obs += parse_step_obs(["CHK_C02"], "c02par", states=[0], callbacks=True, checks="std", tier=tier)
     # stack: is the recursion into a nested (declared or skipped) section still taken at depth 10^5?
     from props.parsecommon import _ob, F
+    # sections only borrow the search path: replacing / re-entering them must not release it (use after free)
+    extra = [o for o in parse_step_obs(["CHK_C02", "CHK_C07"], "c02path", states=[5], tier=tier, extra_all=("WITH_PATH=2",)) if "sect" in o.key or "secm" in o.key]
+    for o in extra:
+        o.flags = ["--pointer-check"]
+    obs += extra
+    # include stack bounds (depth 0/1/9/10) and end-of-source handling under the memory checks
+    inc = push_obs("c02") + pop_obs("c02")
+    for o in inc:
+        o.checks = "full"
+    obs += inc
     from runner import Ob
     # the REAL flex refill function with an unreadable source (directory / special file): can the process exit?
     obs.append(Ob("c02-flex-unreadable-input", "flex_input.c", [], unwind=6, checks="none", must_reach=("end of harness",),
